@@ -46,6 +46,29 @@ type c19nodeCase struct {
 	Entry string  `json:"entry"`
 	Flag  string  `json:"configuredKey"`
 	File  *string `json:"apiKeyFile"`
+	// api.key location unusable: "dir" a directory sits at <datadir>/api.key, "symlink" a dangling link whose
+	// target directory does not exist, "parentfile" the data directory lies below a regular file
+	Fault string `json:"fault,omitempty"`
+}
+
+// c19prepDataDir creates the data directory with the api.key content or the fault of the case
+func c19prepDataDir(nc c19nodeCase, base, dataDir string) error {
+	if nc.Fault == "parentfile" {
+		return nil // the caller put dataDir below the regular file base/blocker
+	}
+	if err := os.MkdirAll(dataDir, 0755); err != nil {
+		return err
+	}
+	switch nc.Fault {
+	case "dir":
+		return os.MkdirAll(filepath.Join(dataDir, "api.key"), 0700)
+	case "symlink":
+		return os.Symlink(filepath.Join(base, "missing", "sub", "key"), filepath.Join(dataDir, "api.key"))
+	}
+	if nc.File != nil { // api.key exists before the config is made, as on a node that ran before
+		return os.WriteFile(filepath.Join(dataDir, "api.key"), []byte(*nc.File), 0600)
+	}
+	return nil
 }
 
 func freePort() (int, error) {
@@ -86,9 +109,16 @@ func c19post(url, body string) string {
 }
 
 func c19buildConfig(nc c19nodeCase, base string, port int) (cfg *config.Config, dataDir string, err error) {
+	root := base
+	if nc.Fault == "parentfile" {
+		root = filepath.Join(base, "blocker")
+		if err := os.WriteFile(root, []byte("a regular file"), 0600); err != nil {
+			return nil, "", err
+		}
+	}
 	switch nc.Entry {
 	case "cli":
-		dataDir = filepath.Join(base, "clidata")
+		dataDir = filepath.Join(root, "clidata")
 		set := flag.NewFlagSet("verif", flag.ContinueOnError)
 		set.String(config.DataDirFlag.Name, "", "")
 		set.String(config.RpcHostFlag.Name, "", "")
@@ -102,42 +132,27 @@ func c19buildConfig(nc c19nodeCase, base string, port int) (cfg *config.Config, 
 		if err := set.Parse(args); err != nil {
 			return nil, "", err
 		}
-		if err := os.MkdirAll(dataDir, 0755); err != nil {
+		if err := c19prepDataDir(nc, base, dataDir); err != nil {
 			return nil, "", err
-		}
-		if nc.File != nil { // api.key exists before MakeConfig runs, as on a node that ran before
-			if err := os.WriteFile(filepath.Join(dataDir, "api.key"), []byte(*nc.File), 0600); err != nil {
-				return nil, "", err
-			}
 		}
 		cfg, err = config.MakeConfig(cli.NewContext(cli.NewApp(), set, nil), func(*config.Config) {})
 		return cfg, dataDir, err
 	case "mobile":
-		dataDir = filepath.Join(base, config.DefaultDataDir)
+		dataDir = filepath.Join(root, config.DefaultDataDir)
 		rpcCfg := map[string]interface{}{"HTTPHost": "127.0.0.1", "HTTPPort": port}
 		if nc.Flag != "" {
 			rpcCfg["APIKey"] = nc.Flag
 		}
 		js, _ := json.Marshal(map[string]interface{}{"RPC": rpcCfg})
-		if err := os.MkdirAll(dataDir, 0755); err != nil {
+		if err := c19prepDataDir(nc, base, dataDir); err != nil {
 			return nil, "", err
 		}
-		if nc.File != nil {
-			if err := os.WriteFile(filepath.Join(dataDir, "api.key"), []byte(*nc.File), 0600); err != nil {
-				return nil, "", err
-			}
-		}
-		cfg, err = config.MakeMobileConfig(base, string(js))
+		cfg, err = config.MakeMobileConfig(root, string(js))
 		return cfg, dataDir, err
 	case "struct":
-		dataDir = filepath.Join(base, "structdata")
-		if err := os.MkdirAll(dataDir, 0755); err != nil {
+		dataDir = filepath.Join(root, "structdata")
+		if err := c19prepDataDir(nc, base, dataDir); err != nil {
 			return nil, "", err
-		}
-		if nc.File != nil {
-			if err := os.WriteFile(filepath.Join(dataDir, "api.key"), []byte(*nc.File), 0600); err != nil {
-				return nil, "", err
-			}
 		}
 		r := rpc.GetDefaultRPCConfig("127.0.0.1", port)
 		r.APIKey = nc.Flag
@@ -152,6 +167,9 @@ func c19nodeCaseRun(c *hx.Ctx, nc c19nodeCase) (op, ans string, err error) {
 		ftok = "x" + hexs(*nc.File)
 	}
 	op = fmt.Sprintf("nodekey %s x%s %s", nc.Entry, hexs(nc.Flag), ftok)
+	if nc.Fault != "" {
+		op = fmt.Sprintf("nodestart %s x%s %s", nc.Entry, hexs(nc.Flag), nc.Fault)
+	}
 	base, err := os.MkdirTemp("", "c19node")
 	if err != nil {
 		return op, "", err
@@ -180,6 +198,15 @@ func c19nodeCaseRun(c *hx.Ctx, nc c19nodeCase) (op, ans string, err error) {
 		return e
 	}()
 	if ctorErr == nil || !strings.Contains(ctorErr.Error(), "stub") {
+		if nc.Fault != "" && ctorErr != nil {
+			// the constructor gave up before the ipfs stub: the node refuses to start (no endpoint is left open:
+			// the key resolution comes before startInitialRPC)
+			if got := c19post(fmt.Sprintf("http://127.0.0.1:%d", port), `{"jsonrpc":"2.0","id":1,"method":"bcn_syncing","params":[]}`); got != "unreachable" {
+				c.Fail("C19:node-runs-ungated-after-key-persist-failure:"+nc.Entry, fmt.Sprintf("entry point %s, configured key %q, api.key location fault %s: the constructor failed (%v) but left an endpoint that answers a key-less bcn_syncing with %s", nc.Entry, nc.Flag, nc.Fault, ctorErr, got), nc)
+				return op, "start=refused-but-endpoint-open:" + got, nil
+			}
+			return op, "start=refused", nil
+		}
 		// the sandbox constructor is expected to stop exactly at the stubbed ipfs constructor
 		return op, fmt.Sprintf("ctor-stopped-elsewhere:%v", ctorErr), nil
 	}
@@ -215,6 +242,10 @@ func c19nodeCaseRun(c *hx.Ctx, nc c19nodeCase) (op, ans string, err error) {
 		}
 	}
 	fail := func(sig, f string, a ...interface{}) {
+		if nc.Fault != "" { // the node went on although the key could not be persisted: one signature for all symptoms
+			c.Fail("C19:node-runs-ungated-after-key-persist-failure:"+nc.Entry, fmt.Sprintf("entry point %s, configured key %q, api.key location fault %s (key cannot be written): the node starts all the same; ", nc.Entry, nc.Flag, nc.Fault)+fmt.Sprintf(f, a...), nc)
+			return
+		}
 		c.Fail("C19:"+sig+":"+nc.Entry, fmt.Sprintf("entry point %s, configured key %q, api.key %v: ", nc.Entry, nc.Flag, fileDesc(nc.File))+fmt.Sprintf(f, a...), nc)
 	}
 	if key == "" {
@@ -252,7 +283,9 @@ func c19nodeCaseRun(c *hx.Ctx, nc c19nodeCase) (op, ans string, err error) {
 	}
 	if initial != "e-32800" && initial != "unreachable" {
 		msg := fmt.Sprintf("the initial endpoint (startInitialRPC, opened by the node constructor) answered a key-less bcn_syncing with %s although the node's key is %s (%q): it was opened before the key was resolved", initial, kind, want)
-		if c19InitialEndpointIsViolation {
+		if nc.Fault != "" {
+			fail("", "%s", msg)
+		} else if c19InitialEndpointIsViolation {
 			c.Fail("C19:initial-endpoint-before-key-resolution:"+nc.Entry, fmt.Sprintf("entry point %s, configured key %q, api.key %v: %s", nc.Entry, nc.Flag, fileDesc(nc.File), msg), nc)
 		} else if len(c.Rep.Notes) < 3 {
 			c.Rep.Notes = append(c.Rep.Notes, msg)
@@ -260,6 +293,9 @@ func c19nodeCaseRun(c *hx.Ctx, nc c19nodeCase) (op, ans string, err error) {
 		c.Hit("nodekey:initial-endpoint-keyless-served")
 	}
 	ans = fmt.Sprintf("key=%s file=%s initial=%s keyless=%s wrong=%s right=%s", ktok, atok, initial, keyless, wrong, right)
+	if nc.Fault != "" {
+		ans = fmt.Sprintf("start=ran key=%s initial=%s keyless=%s", ktok, initial, keyless)
+	}
 	return op, ans, nil
 }
 
@@ -278,16 +314,33 @@ func c19nodekeys(c *hx.Ctx) error {
 	for _, entry := range []string{"cli", "mobile", "struct"} {
 		for _, fl := range flags {
 			for _, fi := range files {
-				op, ans, err := c19nodeCaseRun(c, c19nodeCase{entry, fl, fi})
+				op, ans, err := c19nodeCaseRun(c, c19nodeCase{Entry: entry, Flag: fl, File: fi})
 				// the port handed to the constructor can be taken by somebody else before it binds it: try again
 				for try := 0; err == nil && strings.Contains(ans, "initial=unreachable") && try < 3; try++ {
-					op, ans, err = c19nodeCaseRun(c, c19nodeCase{entry, fl, fi})
+					op, ans, err = c19nodeCaseRun(c, c19nodeCase{Entry: entry, Flag: fl, File: fi})
 				}
 				if err != nil {
 					return err
 				}
 				c.Line(op, ans)
 				c.Hit("nodekey:" + entry)
+				c.Rep.Evaluations++
+			}
+		}
+	}
+	// start-ups where the key cannot be persisted: the node must refuse to start, or run gated by a non-empty key
+	for _, entry := range []string{"cli", "mobile", "struct"} {
+		for _, fl := range []string{"", "cfgkey"} {
+			for _, fault := range []string{"dir", "symlink", "parentfile"} {
+				op, ans, err := c19nodeCaseRun(c, c19nodeCase{Entry: entry, Flag: fl, Fault: fault})
+				for try := 0; err == nil && strings.Contains(ans, "initial=unreachable") && try < 3; try++ {
+					op, ans, err = c19nodeCaseRun(c, c19nodeCase{Entry: entry, Flag: fl, Fault: fault})
+				}
+				if err != nil {
+					return err
+				}
+				c.Line(op, ans)
+				c.Hit("nodestart:" + fault + ":" + strings.SplitN(ans, " ", 2)[0])
 				c.Rep.Evaluations++
 			}
 		}
